@@ -190,7 +190,7 @@ def apply_impl(s, d, op):
             if not isinstance(s, SDict):
                 notes.append("`|` did not return an SDict")
         else:
-            s.merge(arg); d = spec.merge_first_wins(d, copy.deepcopy(darg))
+            s.merge(arg); d = spec.merge_first_wins_selfref(d, copy.deepcopy(darg))
         if enc(impl.plain(dict(arg))) != before:
             notes.append(f"{o} modified its argument")
         return s, d, "unit", "unit", notes
@@ -245,7 +245,7 @@ def run_impl(case: dict):
     s = _mk_sd(case["init"])
     d = impl.plain(dict(s))
     obs, fails = [], []
-    lock = not case.get("ph") and not case.get("selfref")
+    lock = not case.get("ph")
     for idx, op in enumerate(case["ops"]):
         try:
             s, d, out_s, out_d, notes = apply_impl(s, d, op)
